@@ -3,6 +3,7 @@ package rules
 import (
 	"fmt"
 	"go/ast"
+	"go/printer"
 	"go/token"
 	"go/types"
 	"sort"
@@ -131,7 +132,15 @@ func nodeString(n ast.Node) string {
 	case ast.Expr:
 		return types.ExprString(x)
 	}
-	return fmt.Sprintf("%T", n)
+	var sb strings.Builder
+	if err := printer.Fprint(&sb, token.NewFileSet(), n); err != nil {
+		return fmt.Sprintf("%T", n)
+	}
+	out := strings.Join(strings.Fields(sb.String()), " ")
+	if len(out) > 160 {
+		out = out[:160] + " …"
+	}
+	return out
 }
 
 func isPtrTo(t types.Type, named *types.Named) bool {
